@@ -289,6 +289,16 @@ def continue_with(ctx):
   outer = f.nested.get('continue_with_callback') or (list(f.nested.values())[0] if f.nested else None)
   ok = cw is not None and outer is not None and len(links) == 1 and U(links[0].func.value) == 'self' and U(links[0].args[0]) == outer.name
   ctx.ob('C17.R4', f, 'one rawlink of the continuation on self', ok, 'link registration changed', why)
+  if outer is not None:
+    # the callback is started exactly once on every path: handed to rawlink (gevent runs a link of an already completed result too)
+    # or called directly, never both
+    for ev, ex in enum_paths(ctx, f):
+      if ex[0] == 'raise':
+        continue
+      n_link = len([e for e in ev if e.kind == 'call' and call_attr(e.node) in ('rawlink', 'link', 'SafeLink') and e.node.args and U(e.node.args[0]) == outer.name])
+      n_call = len([e for e in ev if e.kind == 'call' and isinstance(e.node.func, ast.Name) and e.node.func.id == outer.name])
+      ctx.ob('C17.R4', f, 'the continuation callback is started exactly once on every path', n_link + n_call == 1,
+             'a path links the callback %d times and calls it directly %d times (rawlink on a completed result still runs the link: the continuation would run twice)' % (n_link, n_call), why)
   rets = [x for x in f.node.body if isinstance(x, ast.Return)]
   ctx.ob('C17.R4', f, 'returns the continuation result', bool(rets) and U(rets[-1].value) == cw, 'does not return the new AsyncResult', why, nontrivial=False)
   if outer is None:
